@@ -43,9 +43,9 @@ package internal
 //@   at call AssignableTo 1 pre assert [C14] asks-whether-element-is-assignable-to-parameter: arg0 == elemT && arg1 == fn.Inputs[elemParamPos] && (elemParamPos == 0 || elemParamPos == 1) && elemParamPos == len(fn.Inputs) - 1
 //@   at call AssignableTo 1 ghost asked = true
 //@   at call AssignableTo 1 ghost assignable = ret
-//@   at call errf 2 pre assert [C14] results-rejected-only-when-there-are-non-error-results: len(fn.Outputs) != 0
-//@   at call errf 3 pre assert [C14] arity-rejected-only-when-not-one-or-two-parameters: len(fn.Inputs) != 1 && len(fn.Inputs) != 2
-//@   at call errf 6 pre assert [C14] collection-rejected-only-when-its-underlying-type-is-not-a-slice: typeof(pure("invoke go/types.Type.Underlying", typ)) != typeid("*go/types.Slice")
+//   (one clause for every diagnostic of the function, whatever its position:
+//   the order of the reject branches is not part of the contract)
+//@   at call errf * pre assert [C14] a-slice-is-rejected-only-for-one-of-its-reasons: fn == nil || len(fn.Outputs) != 0 || (len(fn.Inputs) != 1 && len(fn.Inputs) != 2) || (len(fn.Inputs) == 2 && !(typeof(fn.Inputs[0]) == typeid("*go/types.Basic") && pure("(*go/types.Basic).Kind", dataof(fn.Inputs[0])) == types.Int)) || typ == nil || typeof(pure("invoke go/types.Type.Underlying", typ)) != typeid("*go/types.Slice") || (asked && !assignable)
 //@   ensures [C14] accepted-only-if-element-assignable: implies(result != nil, asked && assignable)
 //@   ensures [C14] assignable-element-is-accepted: implies(asked && assignable, result != nil)
 //@   ensures [C14] accepted-records-element-type: implies(result != nil, result.ElemType == elemT && result.Function == fn)
